@@ -144,11 +144,17 @@ def _checkout_file(
                 prompt=prompt,
             )
     else:
-        if not force and fs.isfile(path):
+        if fs.isfile(path):
             # The workspace could not be staged (e.g. it contains a broken
             # symlink), so nothing is known about this existing file: do not
-            # overwrite it as if the path were free.
+            # overwrite it as if the path were free. It has to go even when
+            # forced: hardlink/symlink do not replace an existing file (the
+            # FileExistsError is ignored by transfer), and we would then record
+            # the new hash in the state for a file we did not write.
             _remove(path, fs, False, force=force, prompt=prompt)
+        elif fs.is_symlink(path):
+            # a broken symlink holds no data, but it would be in the way too
+            fs.remove(path)
         link(cache, cache_path, fs, path)
         modified = True
     return modified
